@@ -5,10 +5,14 @@
    Executable; proofs in DurableProofs.v. *)
 From KV Require Import Base Model.
 
-Inductive fname := FLog (b : Z) | FIdx (b : Z).
+(* FTLog / FTIdx: the two temporary files of a delete-by-rewrite (<base>.log.rewrite.X, <base>.index.rewrite.X) *)
+Inductive fname := FLog (b : Z) | FIdx (b : Z) | FTLog | FTIdx.
 
 Definition fname_eqb (a b : fname) : bool :=
-  match a, b with FLog x, FLog y => x =? y | FIdx x, FIdx y => x =? y | _, _ => false end.
+  match a, b with
+  | FLog x, FLog y => x =? y | FIdx x, FIdx y => x =? y | FTLog, FTLog => true | FTIdx, FTIdx => true
+  | _, _ => false
+  end.
 
 (* fsyn = None: not written by this process since it was opened - all of it is on stable storage *)
 Record fstat := mkF { fnm : fname; flen : Z; fsyn : option Z }.
